@@ -330,107 +330,71 @@ impl Number {
     }
 }
 
+impl Number {
+    /// The exact value of this number as an arbitrary-precision rational, or
+    /// None for NaN and the infinities.
+    fn to_big_rational(&self) -> Option<BigRational> {
+        match self {
+            Number::Fixnum(num) => Some(BigRational::from_integer(BigInt::from(*num))),
+            Number::BigInt(num) => Some(BigRational::from_integer((**num).clone())),
+            Number::Rational(num) => Some(BigRational::new(
+                BigInt::from(*num.numer()),
+                BigInt::from(*num.denom()),
+            )),
+            Number::Float(num) => BigRational::from_float(*num),
+        }
+    }
+
+    /// Order two numbers of different representations by their mathematical
+    /// values. Converting an integer to f64, or to a 32 bit rational, loses the
+    /// very digits that decide the comparison near 2^53 and beyond 2^31, so mixed
+    /// comparisons are carried out exactly. None is returned only for NaN.
+    fn mixed_cmp(&self, rhs: &Number) -> Option<Ordering> {
+        const EXACT_F64: i64 = 1 << 53;
+        match (self, rhs) {
+            (Number::Fixnum(lhs), Number::Float(rhs)) if lhs.abs() <= EXACT_F64 => {
+                (*lhs as f64).partial_cmp(rhs)
+            }
+            (Number::Float(lhs), Number::Fixnum(rhs)) if rhs.abs() <= EXACT_F64 => {
+                lhs.partial_cmp(&(*rhs as f64))
+            }
+            (Number::Float(num), _) | (_, Number::Float(num)) if num.is_nan() => None,
+            (Number::Float(lhs), _) if lhs.is_infinite() => Some(match *lhs > 0_f64 {
+                true => Ordering::Greater,
+                false => Ordering::Less,
+            }),
+            (_, Number::Float(rhs)) if rhs.is_infinite() => Some(match *rhs > 0_f64 {
+                true => Ordering::Less,
+                false => Ordering::Greater,
+            }),
+            _ => self
+                .to_big_rational()?
+                .partial_cmp(&rhs.to_big_rational()?),
+        }
+    }
+}
+
 impl Eq for Number {}
 impl PartialEq for Number {
     fn eq(&self, rhs: &Self) -> bool {
-        match self {
-            Number::Fixnum(lhs) => match rhs {
-                Number::Fixnum(rhs) => lhs == rhs,
-                Number::BigInt(rhs) => BigInt::from(*lhs) == **rhs,
-                Number::Float(rhs) => *lhs as f64 == *rhs,
-                Number::Rational(rhs) => {
-                    if lhs.to_i32().is_some() {
-                        Rational32::from_integer(*lhs as i32) == *rhs
-                    } else {
-                        false
-                    }
-                }
-            },
-            Number::BigInt(lhs) => match rhs {
-                Number::Fixnum(rhs) => **lhs == BigInt::from(*rhs),
-                Number::BigInt(rhs) => lhs == rhs,
-                Number::Float(rhs) => lhs.to_f64().unwrap() == *rhs,
-                Number::Rational(rhs) => match lhs.to_i32() {
-                    Some(lhs) => Rational32::from_integer(lhs) == *rhs,
-                    None => false,
-                },
-            },
-            Number::Float(lhs) => match rhs {
-                Number::Fixnum(rhs) => *lhs == *rhs as f64,
-                Number::Float(rhs) => lhs == rhs,
-                Number::BigInt(rhs) => *lhs == rhs.to_f64().unwrap(),
-                Number::Rational(rhs) => match rhs.to_f64() {
-                    Some(rhs) => *lhs == rhs,
-                    None => false,
-                },
-            },
-            Number::Rational(lhs) => match rhs {
-                Number::Fixnum(rhs) => {
-                    if rhs.to_i32().is_some() {
-                        Rational32::from_integer(*rhs as i32) == *lhs
-                    } else {
-                        false
-                    }
-                }
-                Number::Float(rhs) => match lhs.to_f64() {
-                    Some(lhs) => lhs == *rhs,
-                    None => false,
-                },
-                Number::BigInt(rhs) => match rhs.to_i32() {
-                    Some(rhs) => *lhs == Rational32::from_integer(rhs),
-                    None => false,
-                },
-                Number::Rational(rhs) => lhs == rhs,
-            },
+        match (self, rhs) {
+            (Number::Fixnum(lhs), Number::Fixnum(rhs)) => lhs == rhs,
+            (Number::BigInt(lhs), Number::BigInt(rhs)) => lhs == rhs,
+            (Number::Float(lhs), Number::Float(rhs)) => lhs == rhs,
+            (Number::Rational(lhs), Number::Rational(rhs)) => lhs == rhs,
+            _ => self.mixed_cmp(rhs) == Some(Ordering::Equal),
         }
     }
 }
 
 impl PartialOrd for Number {
     fn partial_cmp(&self, rhs: &Self) -> Option<Ordering> {
-        match self {
-            Number::Fixnum(lhs) => match rhs {
-                Number::Fixnum(rhs) => lhs.partial_cmp(rhs),
-                Number::BigInt(rhs) => BigInt::from(*lhs).partial_cmp(&**rhs),
-                Number::Float(rhs) => (*lhs as f64).partial_cmp(rhs),
-                Number::Rational(rhs) => {
-                    if lhs.to_i32().is_some() {
-                        Rational32::from_integer(*lhs as i32).partial_cmp(rhs)
-                    } else {
-                        Some(Ordering::Greater)
-                    }
-                }
-            },
-            Number::BigInt(lhs) => match rhs {
-                Number::Fixnum(rhs) => (**lhs).partial_cmp(&BigInt::from(*rhs)),
-                Number::BigInt(rhs) => (**lhs).partial_cmp(&**rhs),
-                Number::Float(rhs) => (**lhs).to_f64().unwrap().partial_cmp(rhs),
-                Number::Rational(rhs) => match lhs.to_i32() {
-                    Some(lhs) => Rational32::from_integer(lhs).partial_cmp(rhs),
-                    None => Some(Ordering::Greater),
-                },
-            },
-            Number::Float(lhs) => match rhs {
-                Number::Fixnum(rhs) => lhs.partial_cmp(&(*rhs as f64)),
-                Number::Float(rhs) => lhs.partial_cmp(rhs),
-                Number::BigInt(rhs) => lhs.partial_cmp(&(**rhs).to_f64().unwrap()),
-                Number::Rational(rhs) => lhs.partial_cmp(&rhs.to_f64().unwrap()),
-            },
-            Number::Rational(lhs) => match rhs {
-                Number::Fixnum(rhs) => {
-                    if rhs.to_i32().is_some() {
-                        lhs.partial_cmp(&Rational32::from_integer(*rhs as i32))
-                    } else {
-                        Some(Ordering::Less)
-                    }
-                }
-                Number::Float(rhs) => lhs.to_f64().unwrap().partial_cmp(rhs),
-                Number::BigInt(rhs) => match rhs.to_i32() {
-                    Some(rhs) => lhs.partial_cmp(&Rational32::from_integer(rhs)),
-                    None => Some(Ordering::Less),
-                },
-                Number::Rational(rhs) => lhs.partial_cmp(rhs),
-            },
+        match (self, rhs) {
+            (Number::Fixnum(lhs), Number::Fixnum(rhs)) => lhs.partial_cmp(rhs),
+            (Number::BigInt(lhs), Number::BigInt(rhs)) => (**lhs).partial_cmp(&**rhs),
+            (Number::Float(lhs), Number::Float(rhs)) => lhs.partial_cmp(rhs),
+            (Number::Rational(lhs), Number::Rational(rhs)) => lhs.partial_cmp(rhs),
+            _ => self.mixed_cmp(rhs),
         }
     }
 }
